@@ -1,7 +1,7 @@
 """C10 — link-layer envelopes are transparent: Nack, PIT token, wrapped packets (DESIGN §4 C10)."""
 import ast
 
-from .common import ctx, family, returns, calls_in_ctx, reach_from_succ, site, srcs_text, truthy_label, resolve_call
+from .common import ctx, family, returns, calls_in_ctx, reach_from_succ, site, srcs_text, truthy_label, resolve_call, call_arg, bound_args
 from ..flow import callee_attr
 from ..loader import AnalysisError, norm, FuncT
 from ..models import models_of
@@ -51,9 +51,9 @@ def run(R):
             if fn in ('parse_interest', 'parse_data') and c.args:
                 uses.append((n, c.args[0], fn))
             if fn in ('_on_interest', '_on_data'):
-                for k in c.keywords:
-                    if k.arg == 'raw_packet':
-                        uses.append((n, k.value, fn))
+                rp = call_arg(P, rx, c, 'raw_packet')
+                if rp is not None:
+                    uses.append((n, rp, fn))
         R.need(len(uses) >= 5, f'{rx.qual}: dispatch sites not found')
         for (n, e, fn) in uses:
             for s in rx.sources(n, e):
@@ -291,7 +291,7 @@ def run(R):
         probs.append('outer type 0x64 is not checked')
     prs = [c for (n, c) in calls_in_ctx(p2, attr='parse')]
     if len(prs) != 1 or ast.unparse(prs[0].func.value) != 'LpPacketValue' or not any(
-            k.arg == 'ignore_critical' and isinstance(k.value, ast.Constant) and k.value.value is True for k in prs[0].keywords):
+            isinstance(v_, ast.Constant) and v_.value is True for v_ in [call_arg(P, p2, prs[0], 'ignore_critical')]):
         probs.append('unknown envelope headers are not ignored (ignore_critical=True)')
     for fld in ('frag_index', 'frag_count'):
         ts = [t for t in p2.cfg.nodes if t.kind == 'test' and truthy_label(t.ast, f'ret.{fld}') is not None]
